@@ -106,6 +106,11 @@ func discharge(o *Obligation, dir string, id int, tier string, timeoutS int) {
 	if o.Script == "" {
 		return
 	}
+	if o.Expect == "pathcover" {
+		r := runSolver(solvers["z3-new"], dir, id, o.Script, 4)
+		o.Status, o.Solver, o.Ms, o.Output = r.status, r.solver, r.ms, fmt.Sprintf("[%s %s %dms]", r.solver, r.status, r.ms)
+		return
+	}
 	if o.Expect == "cover" {
 		r := runSolver(solvers["z3-new"], dir, id, o.Script, 3)
 		o.Status, o.Solver, o.Ms, o.Output = r.status, r.solver, r.ms, fmt.Sprintf("[%s %s %dms]", r.solver, r.status, r.ms)
@@ -189,6 +194,9 @@ func discharge(o *Obligation, dir string, id int, tier string, timeoutS int) {
 	o.Output = strings.Join(outs, "\n")
 }
 
+// noRetry: corpus runs on scratch copies only need to know THAT something fails; skip the second-chance pass there
+var noRetry bool
+
 func dischargeAll(obls []*Obligation, tier string, timeoutS int, workers int) (string, error) {
 	dir, err := os.MkdirTemp("", "govc-smt-")
 	if err != nil {
@@ -222,7 +230,7 @@ func dischargeAll(obls []*Obligation, tier string, timeoutS int, workers int) (s
 			retry = append(retry, i)
 		}
 	}
-	if len(retry) > 0 && len(retry) <= 24 {
+	if len(retry) > 0 && len(retry) <= 24 && !noRetry {
 		sem := make(chan struct{}, 3)
 		var wg2 sync.WaitGroup
 		for _, i := range retry {
